@@ -244,6 +244,7 @@ void *flatcc_emitter_copy_buffer(flatcc_emitter_t *E, void *buf, size_t size)
 {
     flatcc_emitter_page_t *p;
     size_t len;
+    void *buf_start = buf;
 
     if (size < E->used) {
         return 0;
@@ -265,5 +266,5 @@ void *flatcc_emitter_copy_buffer(flatcc_emitter_t *E, void *buf, size_t size)
         p = p->next;
     }
     memcpy(buf, p->page, FLATCC_EMITTER_PAGE_SIZE - E->back_left);
-    return buf;
+    return buf_start;
 }
